@@ -12,6 +12,8 @@ use std::sync::Arc;
 #[derive(Clone, Debug)]
 pub enum EOp {
     Search { scope: u64, q: Vec<f32>, k: usize },
+    /// knn_search_batch_with_ef_detailed_scoped without ef override (cache consulted per query, misses searched as a group)
+    BatchSearch { scope: u64, qs: Vec<Vec<f32>>, k: usize },
     Insert { id: u64, v: Vec<f32> },
     Delete { id: u64 },
     UpdateMeta { id: u64 },
@@ -44,6 +46,43 @@ fn meta(tag: &str) -> HashMap<String, String> {
     let mut m = HashMap::new();
     m.insert("t".to_string(), tag.to_string());
     m
+}
+
+/// Is `got` an answer a fresh, uncached search could give NOW (modulo ties)?  Returns (why not, reference ids != live ids).
+fn judge(engine: &TieredEngine, live: &BTreeMap<u64, Vec<f32>>, scope: u64, q: &[f32], k: usize, got: &[(u64, f32)]) -> (Option<String>, bool) {
+    let nlive = live.len();
+    let reference: Vec<(u64, f32)> = if nlive == 0 {
+        vec![]
+    } else {
+        engine
+            .knn_search_with_ef_detailed_scoped(q, nlive, Some(512), scope)
+            .map(|(r, _)| r.iter().map(|x| (x.doc_id, x.distance)).collect())
+            .unwrap_or_default()
+    };
+    let mut ref_ids: Vec<u64> = reference.iter().map(|p| p.0).collect();
+    ref_ids.sort();
+    let mism = ref_ids != live.keys().cloned().collect::<Vec<_>>();
+    let now: HashMap<u64, f32> = reference.iter().cloned().collect();
+    if got.len() != k.min(nlive) {
+        return (Some(format!("served {} results, a fresh search returns min(k={}, live={})", got.len(), k, nlive)), mism);
+    }
+    let mut worst = f32::NEG_INFINITY;
+    for (id, d) in got {
+        match (live.get(id), now.get(id)) {
+            (None, _) => return (Some(format!("served doc {} which was deleted", id)), mism),
+            (Some(_), Some(dn)) if dn.to_bits() != d.to_bits() => {
+                return (Some(format!("served doc {} with distance {} but its current distance is {}", id, d, dn)), mism)
+            }
+            _ => {}
+        }
+        worst = worst.max(*d);
+    }
+    for (id, dn) in &reference {
+        if !got.iter().any(|p| p.0 == *id) && *dn < worst {
+            return (Some(format!("omitted live doc {} at distance {} strictly inside the served boundary {}", id, dn, worst)), mism);
+        }
+    }
+    (None, mism)
 }
 
 pub fn run(h: &Hist) -> RunOut {
@@ -136,6 +175,35 @@ pub fn run(h: &Hist) -> RunOut {
                 }
                 out.trace.push(json!({"cold_loss": id, "res": r.ok()}));
             }
+            EOp::BatchSearch { scope, qs, k } => {
+                out.searches += qs.len() as u64;
+                match engine.knn_search_batch_with_ef_detailed_scoped(qs, *k, None, *scope) {
+                    Err(e) => out.trace.push(json!({"batch_search_error": e.to_string()})),
+                    Ok(rs) => {
+                        let mut tr = vec![];
+                        for (j, (res, path)) in rs.iter().enumerate() {
+                            let got: Vec<(u64, f32)> = res.iter().map(|r| (r.doc_id, r.distance)).collect();
+                            tr.push(json!({"q": qs[j], "path": format!("{:?}", path), "results": got}));
+                            if *path == SearchExecutionPath::CacheHit {
+                                out.hits += 1;
+                            }
+                            // every answer of the batch, cached or computed, must be one a fresh search could give
+                            let (why, mism) = judge(&engine, &live, *scope, &qs[j], *k, &got);
+                            if mism {
+                                out.ref_mismatch += 1;
+                            }
+                            if let Some(w) = why {
+                                out.trace.push(json!({"batch_search": {"scope": scope, "k": k}, "answers": tr}));
+                                out.failure = Some(format!("op {}: batch search answer #{} ({:?}) for scope {} q {:?} k {}: {}", i, j, path, scope, qs[j], k, w));
+                                return out;
+                            }
+                            let key = (*scope, qs[j].iter().map(|x| x.to_bits()).collect::<Vec<u32>>());
+                            last_search.insert(key, writes);
+                        }
+                        out.trace.push(json!({"batch_search": {"scope": scope, "k": k}, "answers": tr}));
+                    }
+                }
+            }
             EOp::Search { scope, q, k } => {
                 out.searches += 1;
                 let r = engine.knn_search_with_ef_detailed_scoped(q, *k, None, *scope);
@@ -154,44 +222,10 @@ pub fn run(h: &Hist) -> RunOut {
                     if last_search.get(&key).map(|w| *w < writes).unwrap_or(false) {
                         out.hits_after_write += 1;
                     }
-                    // reference: fresh uncached search over the whole live set
-                    let nlive = live.len();
-                    let reference: Vec<(u64, f32)> = if nlive == 0 {
-                        vec![]
-                    } else {
-                        engine
-                            .knn_search_with_ef_detailed_scoped(q, nlive, Some(512), *scope)
-                            .map(|(r, _)| r.iter().map(|x| (x.doc_id, x.distance)).collect())
-                            .unwrap_or_default()
-                    };
-                    let mut ref_ids: Vec<u64> = reference.iter().map(|p| p.0).collect();
-                    ref_ids.sort();
-                    if ref_ids != live.keys().cloned().collect::<Vec<_>>() {
+                    let (why, mism) = judge(&engine, &live, *scope, q, *k, &got);
+                    if mism {
                         out.ref_mismatch += 1;
                     }
-                    let now: HashMap<u64, f32> = reference.iter().cloned().collect();
-                    let why = (|| {
-                        if got.len() != (*k).min(nlive) {
-                            return Some(format!("served {} results, a fresh search returns min(k={}, live={})", got.len(), k, nlive));
-                        }
-                        let mut worst = f32::NEG_INFINITY;
-                        for (id, d) in &got {
-                            match (live.get(id), now.get(id)) {
-                                (None, _) => return Some(format!("served doc {} which was deleted", id)),
-                                (Some(_), Some(dn)) if dn.to_bits() != d.to_bits() => {
-                                    return Some(format!("served doc {} with distance {} but its current distance is {}", id, d, dn))
-                                }
-                                _ => {}
-                            }
-                            worst = worst.max(*d);
-                        }
-                        for (id, dn) in &reference {
-                            if !got.iter().any(|p| p.0 == *id) && *dn < worst {
-                                return Some(format!("omitted live doc {} at distance {} strictly inside the served boundary {}", id, dn, worst));
-                            }
-                        }
-                        None
-                    })();
                     if let Some(w) = why {
                         out.failure = Some(format!("op {}: cache hit for scope {} q {:?} k {}: {}", i, scope, q, k, w));
                         return out;
@@ -225,7 +259,13 @@ pub fn gen(r: &mut Rng) -> Hist {
     let mut ops = vec![];
     for _ in 0..n {
         match r.below(20) {
-            0..=8 => ops.push(EOp::Search { scope: r.below(2), q: r.pick(&queries).clone(), k: r.range(1, 3) as usize }),
+            0..=6 => ops.push(EOp::Search { scope: r.below(2), q: r.pick(&queries).clone(), k: r.range(1, 3) as usize }),
+            7..=8 => {
+                // a batch in which some queries are usually cached already and others are not
+                let n = r.range(2, 4) as usize;
+                let qs: Vec<Vec<f32>> = (0..n).map(|_| r.pick(&queries).clone()).collect();
+                ops.push(EOp::BatchSearch { scope: r.below(2), qs, k: r.range(1, 3) as usize })
+            }
             9..=13 => {
                 // inserts near a query as often as far away
                 let v = if r.chance(1, 3) { r.pick(&queries).clone() } else { r.pick(&vecs).clone() };
@@ -263,6 +303,7 @@ pub fn gen(r: &mut Rng) -> Hist {
 pub fn hist_json(h: &Hist) -> Value {
     let ops: Vec<Value> = h.ops.iter().map(|o| match o {
         EOp::Search { scope, q, k } => json!({"op": "search", "scope": scope, "q": q, "k": k}),
+        EOp::BatchSearch { scope, qs, k } => json!({"op": "batch_search", "scope": scope, "qs": qs, "k": k}),
         EOp::Insert { id, v } => json!({"op": "insert", "id": id, "v": v}),
         EOp::Delete { id } => json!({"op": "delete", "id": id}),
         EOp::UpdateMeta { id } => json!({"op": "update_metadata", "id": id}),
@@ -279,6 +320,7 @@ fn fv(v: &Value) -> Vec<f32> {
 
 pub fn hist_from_json(v: &Value) -> Hist {
     let ops = v["ops"].as_array().unwrap().iter().map(|o| match o["op"].as_str().unwrap() {
+        "batch_search" => EOp::BatchSearch { scope: o["scope"].as_u64().unwrap(), qs: o["qs"].as_array().unwrap().iter().map(fv).collect(), k: o["k"].as_u64().unwrap() as usize },
         "search" => EOp::Search { scope: o["scope"].as_u64().unwrap(), q: fv(&o["q"]), k: o["k"].as_u64().unwrap() as usize },
         "insert" => EOp::Insert { id: o["id"].as_u64().unwrap(), v: fv(&o["v"]) },
         "delete" => EOp::Delete { id: o["id"].as_u64().unwrap() },
